@@ -296,7 +296,7 @@ def lm_cases(draw, tier="quick"):
     n = draw(st.integers(1, 5))
     m = draw(st.integers(n, n + 3))
     return {"n": n, "m": m, "U": draw(gen.mat(m, m, -1, 1)), "V": draw(gen.mat(n, n, -1, 1)),
-            "s": draw(st.lists(gen.fl(1.0, 5.0), min_size=n, max_size=n)), "cc": draw(st.sampled_from([0.0, 0.3, 0.8])),
+            "s": draw(st.lists(gen.fl(1.0, 5.0), min_size=n, max_size=n)), "cc": draw(st.sampled_from([0.0, 0.3, 0.8, 2.5, 6.0])),
             "y": draw(gen.vec(m, -2, 2)), "x0": draw(gen.vec(n, -2, 2)), "sparse": draw(st.booleans()),
             "gradtol": draw(st.sampled_from([1e-8, 1e-5, 1e-3])),
             # the same problem translated: unknowns of magnitude 1e3 / 1e6
@@ -458,7 +458,7 @@ SUBCHECKS = [
     SubCheck("C16/pcgls", run_pcgls, strategy=pcgls_cases, n={"quick": 400, "thorough": 8000}, shards={"quick": 4, "thorough": 16}),
     SubCheck("C16/fista", run_fista, strategy=fista_cases, n={"quick": 200, "thorough": 4000}, shards={"quick": 4, "thorough": 16},
              shrink=False),
-    SubCheck("C16/lm", run_lm, strategy=lm_cases, n={"quick": 300, "thorough": 6000}, shards={"quick": 2, "thorough": 16}),
+    SubCheck("C16/lm", run_lm, strategy=lm_cases, n={"quick": 1200, "thorough": 6000}, shards={"quick": 2, "thorough": 16}),
     SubCheck("C16/scipy_wrappers", run_wrap, strategy=wrap_cases, n={"quick": 300, "thorough": 6000}, shards={"quick": 4, "thorough": 16}),
     SubCheck("C16/projections", run_proj, strategy=proj_cases, n={"quick": 1000, "thorough": 20000}, shards={"quick": 2, "thorough": 8}),
 ]
